@@ -147,6 +147,8 @@ fn payload_bytes(c: &Case, f: &F, v: &V, layouts: &Layouts, out: &mut Vec<u8>, a
         (F::Prim(..), V::Flt(x, false)) => put(out, at, &x.to_le_bytes()),
         (F::Enum, V::Enum(_, d)) => put(out, at, &d.to_le_bytes()),
         (F::BoxOpaque, V::Ptr(p)) => put(out, at, &p.to_le_bytes()),
+        // the pointer of a slice inside an option payload is the allocator's business: marked, compared as a wildcard
+        (F::Slice, V::Slice(n)) => { put(out, at, &[0xAA; 4]); put(out, at + 4, &(*n as u32).to_le_bytes()); }
         (F::Struct(k), V::Struct(_, vs)) => {
             let l = &layouts[*k];
             if out.len() < at + l.size { out.resize(at + l.size, 0); }
@@ -209,7 +211,8 @@ pub fn fill_slots(slots: &str, lv: &[Leaf]) -> Result<Vec<String>, String> {
                 Some(Leaf::Opt(b, _)) => {
                     let mut n: u128 = 0;
                     for (i, x) in b[chunk_at..chunk_at + w].iter().enumerate() { n |= (*x as u128) << (8 * i); }
-                    out.push(if w == 8 { format!("{n}n") } else { n.to_string() });
+                    let has_ptr = b[chunk_at..chunk_at + w].windows(4).any(|q| q == [0xAA; 4]);
+                    out.push(if has_ptr { "*".into() } else if w == 8 { format!("{n}n") } else { n.to_string() });
                     chunk_at += w;
                 }
                 o => return Err(format!("slot {s}: leaf {li} is {o:?}")),
